@@ -30,6 +30,10 @@ CfgSlices ==
      cap_const  |-> {Cf(c, None, None, wg, TRUE) : c \in {1, 2}, wg \in {FALSE, TRUE}},
      expiry     |-> {Cf(None, ttl, tti, FALSE, FALSE) : ttl \in {None, 0, 2}, tti \in {None, 2}},
      ttl_tti    |-> {Cf(None, 2, 2, FALSE, FALSE)},
+     cap1_ttl   |-> {Cf(1, 2, None, FALSE, FALSE)},
+     cap2_tti   |-> {Cf(2, None, 2, FALSE, FALSE)},
+     cap2_ttl_tti_w |-> {Cf(2, 2, 2, TRUE, FALSE)},
+     cap1_ttl0  |-> {Cf(1, 0, None, FALSE, FALSE)},
      cap_exp    |-> {Cf(c, ttl, tti, wg, FALSE) : c \in {1, 2}, ttl \in {None, 2}, tti \in {None, 2},
                                                  wg \in {FALSE, TRUE}},
      all_small  |-> {Cf(c, ttl, tti, wg, hc) : c \in {None, 1, 2}, ttl \in {None, 2}, tti \in {None, 2},
